@@ -19,6 +19,11 @@
 //	backpressure a live TcpConn whose inbound channel holds 1-2 packets and whose consumer is stalled for 30-60 ms
 //	            (the reader pump sits in its channel send) receives valid frames followed by a damaged one: one
 //	            error, nothing delivered from the damaged frame on, connection closed
+//
+// Second round (third red-team wave, body-only changes keyed on what the generators did not vary): legs2.go —
+// connstats (TcpConn built with every counter set / queue size, one child process per connection), zlibshapes (every
+// shape of zlib stream at every inflated size 0..256 and exact ratios inflated = k x compressed), forgedcrc (frames
+// whose CRC-32 is 0 / ffffffff / 1: flips, cuts, replaced checksum fields). All in the normal tiers.
 package main
 
 import (
@@ -105,9 +110,14 @@ func readAfterHistory(r *hxlib.Run, c *Case, data []byte) (o obs, ok bool) {
 		}
 	}
 	rd := hxcodec.NewReader(data, c.Ck)
-	a0 := totalAlloc()
+	var a0 uint64
+	if !c.NoAlloc {
+		a0 = totalAlloc()
+	}
 	d := hxcodec.DecodeWith(enc, dec, rd, c.Split, c.UOff)
-	o.Alloc = totalAlloc() - a0
+	if !c.NoAlloc {
+		o.Alloc = totalAlloc() - a0
+	}
 	_, o.Impl = hxcodec.RdLine(rd, 0, c.v(), c.Key, &d)
 	o.Kind, o.Reqs, o.Pos = d.Kind(), d.Reqs, d.Pos
 	return o, true
